@@ -53,6 +53,10 @@ type ttlCase struct {
 	// every second (600-700 ms after the expiry instant, and every full second later), until the head has its
 	// verdict. The head's expiry falls into a consultation; its verdict is due when that consultation ends.
 	SlowStore bool `json:"quota_store_slow_around_the_heads_expiry,omitempty"`
+	// WindowSecond (slow-store cases): the quota's window is one second instead of one minute - it re-opens at
+	// about the instant the head's time-to-live ends, so the consultation the loop is kept in ends with "admitted"
+	// for a request whose time-to-live has run out meanwhile. It must still get exactly one verdict.
+	WindowSecond bool `json:"quota_window_is_one_second,omitempty"`
 }
 
 // loopHold keeps the gateway's processing loop inside a state operation (see ttlCase.SlowStore).
@@ -143,7 +147,12 @@ func runTTL(tc ttlCase) (o ttlOutcome) {
 		return
 	}
 	defer dir.Remove()
-	_ = dir.WriteQuota("q.yaml", quotaYAML(cfg, "minute"))
+	unit := "minute"
+	if tc.WindowSecond {
+		unit = "second"
+		class("quota window re-opens while the loop is kept in the consultation")
+	}
+	_ = dir.WriteQuota("q.yaml", quotaYAML(cfg, unit))
 	_ = dir.WriteFlow("f.yaml", flowYAML(cfg))
 	s, e := dir.Load()
 	if e != nil {
@@ -330,7 +339,7 @@ func runTTL(tc ttlCase) (o ttlOutcome) {
 			o.Inconclusive = fmt.Sprintf("%s was released %v after the shutdown", r.ID, t1.Sub(cancelAt))
 		}
 	}
-	if admitted > tc.Max {
+	if admitted > tc.Max && !tc.WindowSecond {
 		o.Violation = fmt.Sprintf("%d requests were allowed inside one window of a quota of %d", admitted, tc.Max)
 		return
 	}
@@ -380,6 +389,7 @@ func genTTL() *rapid.Generator[ttlCase] {
 			}
 			tc.Size = rapid.IntRange(n, 4).Draw(t, "size-slow")
 			tc.AheadMs, tc.SlowStore = 0, true
+			tc.WindowSecond = rapid.Bool().Draw(t, "window-second")
 			return tc
 		}
 		mid := rapid.IntRange(0, 3).Draw(t, "midshutdown") == 0
